@@ -243,6 +243,10 @@ class OMPLoopTrans(ParallelLoopTrans):
         self._reprod = options.get("reprod",
                                    Config.get().reproducible_reductions)
 
+        # Validate before touching the symbol table so that a rejected
+        # transformation leaves the tree unchanged.
+        self.validate(node, options=options)
+
         if self._reprod:
             # When reprod is True, the variables th_idx and nthreads are
             # expected to be declared in the scope.
